@@ -66,6 +66,14 @@ void
 evwatch_free(struct evwatch *watcher)
 {
 	EVBASE_ACQUIRE_LOCK(watcher->base, th_base_lock);
+	/* Keep the loop's iteration over the watchers valid when a watcher is
+	 * freed from inside a watcher callback. */
+	if (watcher == watcher->base->watcher_running) {
+		watcher->base->watcher_next = TAILQ_NEXT(watcher, next);
+		watcher->base->watcher_running = NULL;
+	} else if (watcher == watcher->base->watcher_next) {
+		watcher->base->watcher_next = TAILQ_NEXT(watcher, next);
+	}
 	TAILQ_REMOVE(&watcher->base->watchers[watcher->type], watcher, next);
 	EVBASE_RELEASE_LOCK(watcher->base, th_base_lock);
 	mm_free(watcher);
